@@ -34,12 +34,13 @@ Definition addr := nat.
    KNative : instruction held natively by the Rust CircuitData (h, cx, rzz(θ) made by qc.rzz …):
              every transfer to another circuit re-materialises it, it has no stable Python identity
    KPy     : a mutable Python gate object (e.g. qc.append(RZXGate(θ)), RYGate(θ) inside basis.maps)
-   KQpd2 / KQpd1 half : TwoQubitQPDGate / SingleQubitQPDGate(qubit_id = half);  KCutWire : CutWire marker *)
-Inductive kind := KNative | KPy | KQpd2 | KQpd1 (half : nat) | KCutWire.
+   KQpd2 / KQpd1 half : TwoQubitQPDGate / SingleQubitQPDGate(qubit_id = half);  KCutWire : CutWire marker
+   KMeas   : a QPDMeasure placeholder inside basis.maps (a mutable Python instruction object) *)
+Inductive kind := KNative | KPy | KQpd2 | KQpd1 (half : nat) | KCutWire | KMeas.
 
 Inductive obj :=
 | ONull                                                     (* dangling / not an object *)
-| OCirc (ops : list addr)                                   (* QuantumCircuit: its instruction list *)
+| OCirc (ops : list addr) (cregs : nat)                     (* QuantumCircuit: instruction list, number of classical registers *)
 | OOp (k : kind) (label : nat) (bid : option nat) (basis : option addr)
 | OBasis (maps : list addr) (coeffs : list Q)               (* maps = [m0 slot0; m0 slot1; m1 slot0; …] (OList each) *)
 | OList (items : list addr)                                 (* list / dict values *)
@@ -51,7 +52,7 @@ Definition get (h : heap) (a : addr) : obj := nth a h ONull.
 
 Definition refs (o : obj) : list addr :=
   match o with
-  | OCirc ops => ops
+  | OCirc ops _ => ops
   | OOp _ _ _ (Some b) => [b]
   | OBasis maps _ => maps
   | OList items => items
@@ -135,14 +136,17 @@ Definition copy_op (deep : bool) (a : addr) : M addr :=
   end.
 
 Definition ops_of (c : addr) : M (list addr) :=
-  o <- read c ;; ret (match o with OCirc ops => ops | _ => [] end).
+  o <- read c ;; ret (match o with OCirc ops _ => ops | _ => [] end).
+Definition cregs_of (c : addr) : M nat :=
+  o <- read c ;; ret (match o with OCirc _ n => n | _ => 0 end).
 
 (* QuantumCircuit.copy(): returns the new circuit and (for the model's convenience) its instruction list.
    The model threads instruction lists it has just built instead of re-reading them from the heap. *)
 Definition circuit_copy (deep : bool) (c : addr) : M (addr * list addr) :=
   ops <- ops_of c ;;
+  n <- cregs_of c ;;
   ops' <- mapM (copy_op deep) ops ;;
-  c' <- alloc (OCirc ops') ;;
+  c' <- alloc (OCirc ops' n) ;;
   ret (c', ops').
 
 (* `circuit` itself when inplace, a copy otherwise *)
@@ -164,9 +168,9 @@ Definition new_qpd2 (lbl : nat) : M (addr * addr) :=
 
 (* circuit.data[i] = CircuitInstruction(g, ...)  and  circuit.data.insert(i, ...) *)
 Definition set_op (c : addr) (i : nat) (g : addr) : M unit :=
-  ops <- ops_of c ;; write c (OCirc (upd ops i g)).
+  ops <- ops_of c ;; n <- cregs_of c ;; write c (OCirc (upd ops i g) n).
 Definition insert_op (c : addr) (i : nat) (g : addr) : M unit :=
-  ops <- ops_of c ;; write c (OCirc (firstn i ops ++ g :: skipn i ops)).
+  ops <- ops_of c ;; n <- cregs_of c ;; write c (OCirc (firstn i ops ++ g :: skipn i ops) n).
 
 Definition is_qpd2 (o : obj) : bool := match o with OOp KQpd2 _ _ _ => true | _ => false end.
 
@@ -230,7 +234,7 @@ Definition sub_piece (l : nat) (a : addr) (s : nat * nat) : M (list addr) :=
 
 Definition build_sub (ops : list addr) (sides : list (nat * nat)) (l : nat) : M addr :=
   ps <- mapM (fun as_ => sub_piece l (fst as_) (snd as_)) (combine ops sides) ;;
-  alloc (OCirc (concat ps)).
+  alloc (OCirc (concat ps) 0).       (* partition_problem refuses circuits with classical registers *)
 
 Definition sub_obs (p : addr) (l : nat) : M addr :=
   o <- read p ;; alloc (match o with OPauli d => OPauli (l :: d) | _ => ONull end).
@@ -259,8 +263,9 @@ Definition wire_piece (m : mode) (a : addr) : M addr :=
 
 Definition cut_wires (m : mode) (c : addr) : M addr :=
   ops <- ops_of c ;;
+  n <- cregs_of c ;;
   ops' <- mapM (wire_piece m) ops ;;
-  alloc (OCirc ops').
+  alloc (OCirc ops' n).
 
 (* ---------------------------------------------------------------- expand_observables *)
 (* PauliList.from_symplectic(z, x, observables.phase.copy()) with new z, x arrays *)
@@ -297,14 +302,23 @@ Fixpoint set_bids (ops : list addr) (ids mids : list nat) : M unit :=
   | _, _ => ret tt
   end.
 
-(* operations of one slot list of the selected map, copied (fix11) or stored as they are *)
+(* one operation of a slot list: a QPDMeasure placeholder is replaced by a new Measure instruction
+   (_decompose_qpd_measurements), any other operation is copied (fix11) or stored as it is *)
+Definition slot_item (m : mode) (a : addr) : M addr :=
+  o <- read a ;;
+  match o with
+  | OOp KMeas _ _ _ => alloc (OOp KNative 0 None None)
+  | _ => if fix11 m then copy_leaf a else ret a
+  end.
+
+(* operations of one slot list of the selected map *)
 Definition slot_ops (m : mode) (maps : list addr) (i : nat) : M (list addr) :=
   match nth_error maps i with
   | None => ret []
   | Some la =>
       o <- read la ;;
       match o with
-      | OList items => if fix11 m then mapM copy_leaf items else ret items
+      | OList items => mapM (slot_item m) items
       | _ => ret []
       end
   end.
@@ -329,7 +343,8 @@ Definition splice_piece (m : mode) (a : addr) : M (list addr) :=
 Definition dqi_body (m : mode) (c : addr) (ops : list addr) (ids mids : list nat) : M unit :=
   _ <- set_bids ops ids mids ;;
   ps <- mapM (splice_piece m) ops ;;
-  write c (OCirc (concat ps)).
+  n <- cregs_of c ;;
+  write c (OCirc (concat ps) (S n)).      (* + the new "qpd_measurements" register *)
 
 Definition decompose_qpd_instructions (m : mode) (inplace : bool) (c : addr) (ids mids : list nat) : M addr :=
   co <- target false inplace c ;;
@@ -420,7 +435,7 @@ Definition in_place (cl : call) : bool :=
 Definition own (h : heap) (cl : call) : list addr :=
   match cl with
   | CPcq _ c _ | CCutGates _ c _ => [c]                         (* circuit.data[i] = ... only *)
-  | CDqi _ c _ _ => c :: match get h c with OCirc ops => ops | _ => [] end   (* + operation.basis_id = ... *)
+  | CDqi _ c _ _ => c :: match get h c with OCirc ops _ => ops | _ => [] end   (* + operation.basis_id = ... *)
   | _ => []
   end.
 
@@ -430,7 +445,7 @@ Definition documented_shared (cl : call) : list addr := [].
 (* ---------------------------------------------------------------- observation used by the correspondence *)
 Definition obj_tag (o : obj) : nat :=
   match o with
-  | ONull => 9 | OCirc _ => 0 | OOp _ _ _ _ => 1 | OBasis _ _ => 2 | OList _ => 3 | OPauli _ => 4 | OResult _ => 5
+  | ONull => 9 | OCirc _ _ => 0 | OOp _ _ _ _ => 1 | OBasis _ _ => 2 | OList _ => 3 | OPauli _ => 4 | OResult _ => 5
   end.
 
 (* rin = objects reachable from the arguments BEFORE the call; shared = those also reachable from the result;
@@ -439,17 +454,19 @@ Definition obj_tag (o : obj) : nat :=
 Definition alias_roots (h : heap) (rin outs : list addr) : list addr :=
   let rout := reach h outs in
   let shared := filter (fun a => mem a rin) rout in
-  filter (fun a => mem a outs ||
-                   existsb (fun p => negb (mem p shared) && mem a (refs (get h p))) rout) shared.
+  (* everything referenced by a non-shared object reachable from the result *)
+  let cand := flat_map (fun p => if mem p shared then [] else refs (get h p)) rout in
+  filter (fun a => mem a outs || mem a cand) shared.
 
 Fixpoint count_tag (h : heap) (t : nat) (l : list addr) : nat :=
   match l with [] => 0 | a :: r => (if Nat.eqb (obj_tag (get h a)) t then 1 else 0) + count_tag h t r end.
 
-Definition tag_counts (h : heap) (l : list addr) : list nat := map (fun t => count_tag h t l) (seq 0 6).
+(* counts per kind: circuit, operation, basis, list, paulilist, result, other (never produced by the model) *)
+Definition tag_counts (h : heap) (l : list addr) : list nat := map (fun t => count_tag h t l) (seq 0 7).
 
 Definition kind_beq (a b : kind) : bool :=
   match a, b with
-  | KNative, KNative | KPy, KPy | KQpd2, KQpd2 | KCutWire, KCutWire => true
+  | KNative, KNative | KPy, KPy | KQpd2, KQpd2 | KCutWire, KCutWire | KMeas, KMeas => true
   | KQpd1 x, KQpd1 y => Nat.eqb x y
   | _, _ => false
   end.
@@ -457,7 +474,7 @@ Definition q_beq (a b : Q) : bool := Z.eqb (Qnum a) (Qnum b) && Pos.eqb (Qden a)
 Definition obj_beq (a b : obj) : bool :=
   match a, b with
   | ONull, ONull => true
-  | OCirc x, OCirc y => list_beq Nat.eqb x y
+  | OCirc x n, OCirc y n' => list_beq Nat.eqb x y && Nat.eqb n n'
   | OOp k l i b, OOp k' l' i' b' =>
       kind_beq k k' && Nat.eqb l l' && option_beq Nat.eqb i i' && option_beq Nat.eqb b b'
   | OBasis m c, OBasis m' c' => list_beq Nat.eqb m m' && list_beq q_beq c c'
@@ -477,4 +494,4 @@ Definition observe (m : mode) (h : heap) (cl : call) : bool * list nat * list na
   let h2 := fst r2 in
   (changed,
    tag_counts h1 (alias_roots h1 (reach h (args_of cl)) (snd r1)),
-   if in_place cl then repeat 0 6 else tag_counts h2 (alias_roots h2 (reach h2 (snd r1)) (snd r2))).
+   if in_place cl then repeat 0 7 else tag_counts h2 (alias_roots h2 (reach h2 (snd r1)) (snd r2))).
